@@ -214,7 +214,7 @@ def build_case(group, base, rnd):
             syms.append((name, v - 5))
             return ("bin", "+", ("sym", name), apm.num(5))
         if roll < 0.45 and v >= 0x8000:
-            return apm.num(v - 0x10000)      # negative spelling of the same word
+            return apm.num(v - 0x10000, rnd.choice([None, None, "d", "^X", "^O", "^D", "^B", "x"]))      # negative spelling of the same word, in any radix
         if roll < 0.6:
             # the same word through an expression whose right operand nests (a looser operator left of a tighter one), so that
             # an index register written after it binds to the innermost right operand first
